@@ -24,7 +24,12 @@ use crate::Plan;
 
 use atomic::Ordering;
 use std::sync::atomic::AtomicBool;
+#[cfg(not(mmtk_verif))]
 use std::sync::{Arc, Mutex};
+#[cfg(mmtk_verif)]
+use crate::util::verif::sync::Mutex;
+#[cfg(mmtk_verif)]
+use std::sync::Arc;
 
 use mmtk_macros::{HasSpaces, PlanTraceObject};
 
